@@ -22,7 +22,12 @@ TV      harness `dup record`: random pairs of records obtained from the wire (Un
         Dedup result; `dup sweep`: every RDATA octet of every type overwritten with 0 / 0xff / bit 0 flipped, each decoded
         variant against a second decoding of the same octets and against the original  ->  Trace_Dup.
 
-Seeded changes /verif/seeded/C20-{1,2,3}: see the report at the end of this docstring.
+Seeded changes /verif/seeded/C20-{1,2,3} (all exit 1):
+  C20-1 normalizedString: backslash sets esc instead of toggling   GEN dedup/count:<type> (lists with the owner shapes a\\\\B / A\\\\b ...); TV dedup/trace:<type>
+  C20-2 equal(): XOR-0x20 fast path without the upper letter bound  GEN isduplicate/false-positive:<type>:owner-octet-xor-0x20 and
+                                                                    :name-octet-xor-0x20:<field> (mode "octets"); TV (random x\\DDDy names)
+  C20-3 areSVCBPairArraysEqual sorts b with a's comparator          GEN isduplicate/false-negative:svcb|https:...:second-unsorted (pairs with
+                                                                    reversed parameter order, Copy of an unsorted record); TV isduplicate/asymmetric:https
 
 Mutants (checks/mutants/C20), all exit 1 (stage = where the evidence shows the discrepancy):
   mx-preference-omitted.diff     one field dropped from a generated isDuplicate   GEN isduplicate/false-positive:mx:value:preference ; TV (pairs, sweep one-octet)
@@ -39,7 +44,7 @@ import vp
 def mc(ctx):
     ctx.tlc("MC_Dup", workers=4, xmx="3g", timeout=1500, consts={"Mode": '"pairs"', "MaxList": 0})
     ctx.tlc("MC_Dup", workers=4, xmx="3g", timeout=1500, consts={"Mode": '"triples"', "MaxList": 0})
-    ctx.tlc("MC_Dup", workers=4, xmx="3g", timeout=1500, consts={"Mode": '"lists"', "MaxList": 4 if ctx.quick else 5})
+    ctx.tlc("MC_Dup", workers=4, xmx="3g", timeout=1500, consts={"Mode": '"lists"', "MaxList": 3 if ctx.quick else 5})
 
 
 def gen(ctx, binp, nlist, nshards):
